@@ -921,7 +921,8 @@ Init ==
   /\ q = {}
   \* with no peer the cfHandler either never got its first-peer signal or
   \* (the peers are gone again) sits in its cond-var wait
-  /\ \E d \in (IF Dialing THEN {"none", "dialing"} ELSE {"none"}) :
+  \* (a dial in progress is explored with the empty pool only: state space)
+  /\ \E d \in (IF Dialing /\ pool = P_EMPTY THEN {"none", "dialing"} ELSE {"none"}) :
      \E c \in (IF pool = P_EMPTY THEN {"first", "cond"} ELSE {"first"}) :
        g = [sp |-> "idle", disp |-> "run", wk |-> IF pool = P_EMPTY THEN "none" ELSE "idle",
             bmg |-> "cond", bch |-> "sel", rb |-> "none", subh |-> "sel", blkh |-> "sel",
